@@ -512,6 +512,15 @@ func main() {
 		d.Toks[len(d.Toks)-3] = 14 // last call's output a := 7
 		w.Add(d)
 	}
+	if a.Tier == "thorough" {
+		if rep := pipesup.RaceRun("c07", a.Out, a.Seed); rep != "" {
+			c := &wire.Case{Class: "race", OracleFail: rep, Desc: map[string]interface{}{"race_detector_report": rep}}
+			c.Int(9)
+			w.Add(c)
+		} else {
+			w.Notes = append(w.Notes, "race-detector child run (quick stream under -race: Close/cancel/concurrent-cancel histories): no report")
+		}
+	}
 	if err := w.Flush(a.Out, "Verif.C07.Check", 250); err != nil {
 		fmt.Fprintln(os.Stderr, err)
 		os.Exit(1)
